@@ -120,6 +120,18 @@ Proof.
   - inversion H as [[D E]]. rewrite D. now rewrite Hb.
 Qed.
 
+(* a stream that carries no byte at all (ended or not) is never accepted *)
+Theorem marker_refuses_empty_stream : forall rs e, stream_of rs = ([], e) -> accept_stream rs = Refused.
+Proof.
+  induction rs as [|r rs IH]; intros e H; [reflexivity|]. cbn [stream_of accept_stream] in *.
+  destruct (r_stat r) eqn:S.
+  - destruct (stream_of rs) as [d' e'] eqn:R. destruct (r_data r) as [|b t] eqn:D.
+    + cbn in H. unfold r_stops. rewrite S. now apply (IH e).
+    + cbn in H. discriminate.
+  - inversion H as [[D E]]. rewrite D. unfold r_stops. now rewrite S.
+  - inversion H as [[D E]]. rewrite D. unfold r_stops. now rewrite S.
+Qed.
+
 Lemma writes_of_dial : forall app, writes_of (dial_calls app) = 0 :: writes_of app.
 Proof. reflexivity. Qed.
 Lemma closes_of_dial : forall app, closes_of (dial_calls app) = closes_of app.
